@@ -291,6 +291,11 @@ def _run_exe(exe, lines, timeout, env=None):
         return ans, None
     data = ("\n".join(lines) + "\n").encode()
     e = dict(os.environ)
+    # the implementation side runs every case under a watchdog (a case that loops is answered
+    # "timeout" after 30 s and the process restarted for the rest: a hang is a finding, it must
+    # not hang the check); C06 sets its own, tighter limit
+    if exe == VH:
+        e.setdefault("VH_CASE_TIMEOUT_MS", "30000")
     if env:
         e.update(env)
     try:
@@ -326,13 +331,22 @@ def run_exe(exe, lines, timeout=600, shards=NPROC, env=None):
     def work(part):
         res = {}
         todo = part
+        deaths = 0
         while todo:
             ans, died = _run_exe(exe, todo, timeout, env)
             res.update(ans)
             if died is None:
                 break
             res[died[0]] = died[1]
+            deaths += 1
             todo = [l for l in todo if l.split("\t", 1)[0] not in res]
+            if deaths >= 6 and all(v in ("timeout",) for v in [res[k] for k in list(res)[-1:]]) \
+                    and sum(1 for v in res.values() if v == "timeout") >= 6:
+                # the same loop again and again: the finding is made, the remaining cases of this
+                # shard are not run
+                for l in todo:
+                    res[l.split("\t", 1)[0]] = "notrun"
+                break
         return res
     out = {}
     with ThreadPoolExecutor(max_workers=shards) as ex:
